@@ -94,7 +94,14 @@ pub fn check_zone_instant(z: &ZoneInfo, secs: i64, nanos: u32, digits: usize) ->
     let ctx = format!("zone {} instant {secs}.{want_nanos:09} (offset {off})", z.id);
     let fail = |what: &str, msg: String| Verdict::fail(format!("C06:{what}"), format!("{msg}; {ctx}"));
     // (b) from an instant and a zone name: the string may carry any offset (UTC, the local one)
-    for (label, s) in [("utc", rfc3339_with_offset(secs, nanos, 0, digits, true)), ("local", rfc3339_with_offset(secs, nanos, off, digits, false))] {
+    // ... or any other one: two foreign offsets derived from the instant (quarter hours between -12:00 and +14:00)
+    let foreign = |salt: i64| -> i32 { (((secs / 7 + salt).rem_euclid(105)) as i32 - 48) * 900 };
+    for (label, s) in [
+        ("utc", rfc3339_with_offset(secs, nanos, 0, digits, true)),
+        ("local", rfc3339_with_offset(secs, nanos, off, digits, false)),
+        ("foreign", rfc3339_with_offset(secs, nanos, foreign(0), digits, false)),
+        ("foreign", rfc3339_with_offset(secs, nanos, foreign(53), digits, false)),
+    ] {
         let r = guarded(|| DateTime::parse_from_rfc3339_with_timezone(&s, &z.city));
         let dt = match r {
             Ok(Ok(dt)) => dt,
